@@ -176,7 +176,8 @@ def run(ctx):
     pycode.check(res, random.Random(ctx["seed"] * 7919 + 77), ctx["tier"], ["frame", "reader"])
     res.rule = ("noise (uniform, delimiter-dense, header-shaped incl. length-boundary runts) optionally followed by runs of a "
                 "valid frame of every kind; each stream read up front and lazily in random chunks; producer loop run on a real "
-                "AsyncProtocol. distinct = distinct byte streams; non-trivial = noise containing >= 1 start delimiter")
+                "AsyncProtocol; noise and announced lengths 10..1001 under random ARRIVAL SCHEDULES with the implementation observed at every suspension "
+                "(state, bytes buffered, bytes demanded <= 1000 - taken since the delimiter - buffered) against Model/ReaderChunks. distinct = distinct byte streams; non-trivial = noise containing >= 1 start delimiter")
     cases = []   # (label, noise, frame or None, copies)
     for fn, ln in load_corpus("C14"):
         w = ln.split()
@@ -271,6 +272,20 @@ def run(ctx):
         if len(res.samples) < 4 and label.split(":")[0] in ("run", "noise") and 0x68 in nz and not any(x["label"].split(":")[0] == label.split(":")[0] for x in res.samples):
             res.sample(dict(label=label, noise=nz.hex()[:200], frame=fr.hex() if fr else None, copies=copies,
                             outcomes=[list(o) for o in impl0[:8]]))
+    # "never waits for more than the maximum frame size", at every suspension: noise under random arrival schedules, the
+    # implementation observed whenever read() is suspended (which primitive, how many bytes it demands, how many are buffered,
+    # how many it took since its start delimiter) against the resumable machine (C14.never_demands_beyond_max) and the bound itself
+    import chunks
+    from common import Parts
+    parts = Parts(res)
+    sub = [(label, s) for (label, _, _, _), s in zip(cases, streams) if len(s) <= 2600]
+    sub = sub[:60] + rng.sample(sub[60:], min(len(sub) - 60, 240 if quick else 5000)) if len(sub) > 60 else sub
+    for ln in ([10, 11, 999, 1000, 1001] if quick else [10, 11, 12, 500, 998, 999, 1000, 1001, 1002]):
+        # a header announcing `ln` bytes, the body trickling in
+        sub.append(("noise:announced-%d" % ln, bytes([0x68, ln & 0xFF, ln >> 8, 86, 69, 48, 5]) + bytes(rng.randrange(256) for _ in range(rng.choice([0, 3, max(ln - 8, 0), ln])))))
+    parts.run("suspensions under arrival schedules vs the resumable reader machine", chunks.evaluate, res, sub,
+              random.Random(ctx["seed"] * 15485863 + 141), True, 1 if quick else 2)
+    parts.finish()
     producer.evaluate(res, [dict(c) for c in producer.CORPUS] + prod_cases, "C14")
     # the whole connection (producer AND consumers) after noise that contains checksum-valid stray frames from the
     # known non-controller addresses 0x00 / 0x56: the run of valid frames that follows reaches the device
@@ -285,6 +300,13 @@ def run(ctx):
 def replay(ctx):
     f = ctx["replay"].get("failure") or ctx["replay"].get("first_difference")
     i = f["input"]
+    if i.get("via") == "chunks":
+        import chunks
+        res = Result("C14")
+        res.rule = "replay of one recorded arrival schedule"
+        chunks.replay_case(res, i)
+        res.case(str(i["chunks"]))
+        return res
     if i.get("via") == "pipeline":
         res = Result("C14")
         res.rule = "replay of one recorded noise + run stream through the whole connection"
